@@ -53,7 +53,7 @@ template <class X, bool OWNER> struct Apply
     static void resize_(X&, std::vector<bool>&, std::size_t, bool) {}
 };
 static const char* NAMES[] = {"set_v", "reset_v", "flip_v", "set_ul_b", "reset_ul", "flip_ul", "op_shl_assign", "op_shr_assign", "op_and_assign", "op_or_assign",
-                              "op_xor_assign", "resize", "push_back", "pop_back", "clear", "assign", "ref_assign", "ref_flip", "op_eq"};
+                              "op_xor_assign", "resize", "push_back", "pop_back", "clear", "assign", "ref_assign", "ref_flip", "op_eq", "w_"};
 static const int NOPS = sizeof(NAMES) / sizeof(NAMES[0]);
 
 template <class X> static bool step(int k, X& x, std::vector<bool>& m, bool owner, BS* own)
@@ -91,6 +91,10 @@ template <class X> static bool step(int k, X& x, std::vector<bool>& m, bool owne
     case 17: if (!n) return false; x[pos].flip(); m[pos] = !m[pos]; note("ref.flip", (long)pos); return true;
     case 18: { BS o(n, false); for (std::size_t g = 0; g < n; ++g) o.set(g, m[g]); bool e1 = (x == o); if (n) o.flip(rnd() % n); bool e2 = (x == o);
                note("=="); if (!e1 || (n && e2)) { std::printf("operator== wrong: equal copy -> %d, copy with one bit flipped -> %d\n", (int)e1, (int)e2); m.push_back(true); } } return true;
+    case 19: { BS o(n, false); for (std::size_t g = 0; g < n; ++g) o.set(g, rnd() & 1);
+               BS r1 = x | o, r2 = x & o, r3 = x ^ o, r4 = ~x; bool ok = r1.size() == n && r2.size() == n && r3.size() == n && r4.size() == n;
+               for (std::size_t g = 0; ok && g < n; ++g) ok = bool(r1[g]) == (m[g] || bool(o[g])) && bool(r2[g]) == (m[g] && bool(o[g])) && bool(r3[g]) == (m[g] != bool(o[g])) && bool(r4[g]) == !m[g];
+               note("| & ^ ~"); if (!ok) { std::printf("a free operator | & ^ ~ returned wrong bits\n"); m.push_back(true); } } return true;   // (an operand changed by them shows in the comparison of x with its model)
     }
     return false;
 }
